@@ -429,6 +429,9 @@ func (m *Machine) mapInsert(mp *Map, k, v Value) {
 		e.v = v
 		return
 	}
+	if ks, ok := k.(Str); ok {
+		k = ks.snap() // a map key is hashed when inserted: it does not follow later writes to aliased bytes
+	}
 	e := &mapEntry{k: copyVal(k), v: v}
 	mp.entries = append(mp.entries, e)
 	if ck, ok := concreteKey(k); ok {
@@ -661,7 +664,8 @@ func (m *Machine) callBuiltin(caller *frame, callpos token.Pos, fn *ssa.Builtin,
 		if p == nil {
 			m.rtPanic("unsafe.String: ptr is nil and len is not zero")
 		}
-		return strOfSlice(unsafe.Slice(p, n))
+		// the string aliases the bytes it was made from (later writes to them show through)
+		return Str{A: unsafe.Slice(p, n)[:n:n]}
 	case "Slice":
 		n := int(m.concInt(args[1]))
 		switch p := args[0].(type) {
